@@ -16,12 +16,17 @@ pub struct Counting;
 pub static ALLOC_BYTES: std::sync::atomic::AtomicU64 = std::sync::atomic::AtomicU64::new(0);
 pub static ALLOC_CALLS: std::sync::atomic::AtomicU64 = std::sync::atomic::AtomicU64::new(0);
 pub static ALLOC_MAX: std::sync::atomic::AtomicU64 = std::sync::atomic::AtomicU64::new(0);
+/// allocation-failure injection: requests larger than this many bytes fail (u64::MAX = off)
+pub static ALLOC_LIMIT: std::sync::atomic::AtomicU64 = std::sync::atomic::AtomicU64::new(u64::MAX);
 unsafe impl std::alloc::GlobalAlloc for Counting {
     unsafe fn alloc(&self, l: std::alloc::Layout) -> *mut u8 {
         use std::sync::atomic::Ordering::Relaxed;
         ALLOC_BYTES.fetch_add(l.size() as u64, Relaxed);
         ALLOC_CALLS.fetch_add(1, Relaxed);
         ALLOC_MAX.fetch_max(l.size() as u64, Relaxed);
+        if l.size() as u64 > ALLOC_LIMIT.load(Relaxed) {
+            return std::ptr::null_mut();
+        }
         if l.size() > (1usize << 32) {
             // do not really try to get hundreds of gigabytes: report failure like an exhausted allocator
             return std::ptr::null_mut();
@@ -36,6 +41,9 @@ unsafe impl std::alloc::GlobalAlloc for Counting {
         ALLOC_BYTES.fetch_add(n as u64, Relaxed);
         ALLOC_CALLS.fetch_add(1, Relaxed);
         ALLOC_MAX.fetch_max(n as u64, Relaxed);
+        if n as u64 > ALLOC_LIMIT.load(Relaxed) {
+            return std::ptr::null_mut();
+        }
         std::alloc::System.realloc(p, l, n)
     }
 }
@@ -221,6 +229,53 @@ fn run_encb<B: Buffer>(p: &[u8]) -> String {
     }
 }
 
+/// allocation failure: for every limit L the growable-buffer encoder and decoder run with an allocator that refuses
+/// requests above L bytes.  They must report OutOfMemory or succeed - never abort the process.  One letter per L:
+/// encoder k (frame) / o (OutOfMemory) / x (anything else), then decoder m (payload) / o / x.
+fn run_alloclim(p: &[u8]) -> String {
+    use std::io::Write;
+    use std::sync::atomic::Ordering::Relaxed;
+    let good = encode::<Vec<u8>>(p).expect("unlimited encode");
+    let mut out = String::with_capacity(4 * good.len() + 64);
+    let lims: Vec<u64> = (0..=(2 * good.len() as u64 + 24)).collect();
+    for l in lims {
+        // progress marker first (unbuffered), so that an abort can be located
+        ALLOC_LIMIT.store(l, Relaxed);
+        let e = catch_unwind(|| encode::<Vec<u8>>(p));
+        ALLOC_LIMIT.store(u64::MAX, Relaxed);
+        out.push(match e {
+            Ok(Ok(ref f)) if *f == good => 'k',
+            Ok(Err(_)) => 'o',
+            _ => 'x',
+        });
+        let mut d: Decoder<Vec<u8>> = Decoder::new();
+        let mut res = 'x';
+        ALLOC_LIMIT.store(l, Relaxed);
+        let r = catch_unwind(AssertUnwindSafe(|| {
+            let mut last = 'n';
+            for b in good.iter() {
+                match d.push_byte(*b) {
+                    Ok(Some(m)) => last = if m == p { 'm' } else { 'x' },
+                    Ok(None) => {}
+                    Err(DecodeErr::OutOfMemory) => {
+                        last = 'o';
+                        break;
+                    }
+                    Err(_) => last = 'x',
+                }
+            }
+            last
+        }));
+        ALLOC_LIMIT.store(u64::MAX, Relaxed);
+        if let Ok(c) = r {
+            res = c;
+        }
+        out.push(res);
+        let _ = std::io::stderr().flush();
+    }
+    out
+}
+
 fn run_enci(k: usize, p: &[u8]) -> String {
     let mut it = encode_streaming(p);
     let mut bytes = Vec::new();
@@ -335,6 +390,7 @@ fn handle(line: &str) -> String {
             let p = unhex(h);
             with_cap!(*cap, run_encb, (&p))
         }
+        ["alloclim", h] => run_alloclim(&unhex(h)),
         ["enci", k, h] => run_enci(k.parse().unwrap(), &unhex(h)),
         ["fdecode", h] => run_fdecode(&unhex(h)),
         ["fstream", cap, k, h] => {
